@@ -77,7 +77,7 @@ prop(
 
 prop(
     "C12",
-    ["contracts.c12_lifecycle"],
+    ["contracts.c12_lifecycle", "contracts.runtime"],
     "proof",
     "contract-based deductive verification of the sequential ingredients: lock ghost state on the exclusive wrapper, flag/event obligations on accept/_accept_services/shutdown",
     "exclusivity of accept and release of the guard on EVERY exit path of the wrapped call (return, Exception, KeyboardInterrupt, any BaseException) are proved for all outcomes; the accept loop's flag/event protocol is proved per function. 'shutdown() returns within bounded time' is liveness across threads and is NOT decided here (stated in trusted_base)",
